@@ -22,7 +22,7 @@ use crate::{
     outcome::{canon, guarded, Outcome, Parsed},
     printer::{gen_framing, gen_segments, ipp_response, FaultAt, Framing, ReqRecord, RespFault, RespFaultKind, Script, ERROR_STATUSES},
     props::common::{shrink_mmsg, shrink_payload, shrink_spec},
-    refcodec::{self, hexbytes},
+    refcodec::hexbytes,
     rng::Rng,
     tcp::{TcpPrinter},
     wire::{ErrKind, SimCore, SourceSpec, SrcHandle},
